@@ -23,7 +23,7 @@ def jobs(tier):
     m = _model(tier)
     scheds, total = pure.select_states(m["dump"], None, "sched", keep=lambda b: "result = (1 :> <<\"none\">> @@ 2 :> <<\"none\">> @@ 3 :> <<\"none\">>)" in b or "pos = <<0" in b)
     scheds = [s["sched"] for s in scheds if all(p == 0 for p in s["pos"])]
-    fams = [("daily", "legacy"), ("hourly", "default")] if tier == "quick" else [("daily", "legacy"), ("hourly", "default"), ("billing", "billing"), ("daily", "current"), ("hourly", "robust")]
+    fams = [("daily", "legacy"), ("hourly", "default"), ("hourly", "supp")] if tier == "quick" else [("daily", "legacy"), ("hourly", "default"), ("hourly", "supp"), ("billing", "billing"), ("daily", "current"), ("hourly", "robust")]
     n = 3 if tier == "quick" else 12
     out = []
     for fam, prof in fams:
@@ -44,11 +44,11 @@ def jobs(tier):
                 for mi in w["meters"]:
                     b = METERS[mi]
                     slot = "s%d" % mi
-                    script.append({"op": "make", "p": p, "d": b, "fam": fam, "kind": "baseline", "name": b.split(":")[1]})
+                    script.append({"op": "make", "p": p, "d": b, "fam": fam, "kind": "baseline", "name": b.split(":")[1], "supp": prof == "supp"})
                     script.append({"op": "new", "p": p, "s": slot, "fam": fam, "prof": prof, "seed": seed})
                     script.append({"op": "fit", "p": p, "s": slot, "d": b, "ign": True})
                     rr = REPORT[b]
-                    script.append({"op": "make", "p": p, "d": rr, "fam": fam, "kind": "reporting", "name": rr.split(":")[1], "obs": "orig"})
+                    script.append({"op": "make", "p": p, "d": rr, "fam": fam, "kind": "reporting", "name": rr.split(":")[1], "obs": "orig", "supp": prof == "supp"})
                     script.append({"op": "predict", "p": p, "s": slot, "d": rr, "ign": True, "agg": "None"})
             out.append({"hist": script, "abstract": s, "scenario": "schedule", "fam": fam, "prof": prof, "remote": True})
     jobs.stats = {"schedules_enumerated_by_tlc": len(scheds), "states": m["distinct"], "transitions": m["generated"]}
